@@ -279,6 +279,9 @@ def common_menu(spec):
             menu.append([("obs",), ("ens", mem - 1)])
         # threshold not stored in any file -> probability from the ensemble
         menu.append([("obs",), ("thr", 0.625)])
+        # quantile level not stored in any file -> derived from the ensemble members
+        menu.append([("q", 0.3)])
+        menu.append([("ens", mem - 1)])
     others = None
     for d in allin:
         s = set((d.get("other") or {}).keys())
